@@ -43,6 +43,9 @@ func contractMethods(n *sim.Node) []*contractMethod {
 		for _, a := range addrs {
 			v := reflect.ValueOf(cs[a])
 			ty := v.Type()
+			if a == sim.ScriptAddr.String() {
+				continue // the harness's own scripted contract is not part of the built-in API
+			}
 			for i := 0; i < ty.NumMethod(); i++ {
 				m := ty.Method(i)
 				// methods promoted from the embedded Stub interface are the contract's own API towards the VM, skip them
